@@ -772,6 +772,7 @@ def oracle(ctx, deep=False, only=None):
             f = fam[family]
             if family != "lap_sl" and not budget_ok("family " + family):
                 continue
+            ctx.log(f"oracle: family {family}")
             compare(family, f, gA, gA, "whole", "same")
             compare(family, f, gA, gA, "segment", "same")
             if deep or family == "lap_sl":
@@ -807,6 +808,7 @@ def oracle(ctx, deep=False, only=None):
             p = pots[name]
             if name != "pot_lap_sl" and not budget_ok("potential " + name):
                 continue
+            ctx.log(f"oracle: potential {name}")
             compare_potential(name, p, gA, "whole", "same")
             compare_potential(name, p, gA, "segment", "same")
             if deep:
